@@ -153,6 +153,22 @@ func buildSpec(a *analysed, randText string) gorun.Spec {
 // supportedEnv: no pointer anywhere and only basic kinds gomacro knows (the quantifier of C02/C03/C15)
 func supportedEnv(env *irdump.Env) bool { return supportedEnvOpt(env, false) }
 
+// dupGoFieldNames: a struct whose flattened field list has two fields of one Go name (an outer field
+// and a promoted one, kept apart by their JSON keys). The model's struct values are keyed by the Go
+// field name, so the values of such a struct are outside its value representation.
+func dupGoFieldNames(env *irdump.Env) bool {
+	for _, d := range env.Decls {
+		seen := map[string]bool{}
+		for _, f := range d.Fields {
+			if seen[f.Name] {
+				return true
+			}
+			seen[f.Name] = true
+		}
+	}
+	return false
+}
+
 // supportedEnvOpt: with pointers = true, pointer types are accepted (randdata generates them)
 func supportedEnvOpt(env *irdump.Env, pointers bool) bool {
 	var ok func(t *irdump.Ty) bool
@@ -326,6 +342,10 @@ func runC02(r *rep.Report, thorough bool) error {
 	for id, lns := range byCase {
 		a := byID[id]
 		if a == nil {
+			continue
+		}
+		if dupGoFieldNames(a.Env) {
+			r.Hist("wire-format:outside-the-value-representation(two fields of one Go name)")
 			continue
 		}
 		var vals []map[string]any
